@@ -80,6 +80,14 @@ def check_kernel(ctx, methods: List[str]):
             continue
         if ev.issues:
             raise AnalysisError(f"C01.3: kernel not canonicalisable for '{m}': {ev.issues[:3]}")
+        from .common import split_branches, post_processed
+        clamped = [(pth, post_processed(val)) for pth, val in split_branches(res) if post_processed(val)]
+        if clamped:
+            pth, head = clamped[0]
+            ctx.fail('C01.3', f"target rule '{m}': the kernel returns the solved result y + y_hat*w on every path",
+                     f"when {[str(q)[:100] for q in pth] or 'always'} the result is passed through {head}(...) after the integral equation was solved: the "
+                     f"interval integral no longer equals integral_value", fi.loc(), fi.qualname, f"identity:{m}")
+            continue
         r = need_num(ctx, 'C01.3', 'kernel result', res, fi)
         if r.length is None:
             ctx.fail('C01.3', f"{m}: kernel returns an array", show(r, 200), fi.loc(), fi.qualname, f"array:{m}")
@@ -365,6 +373,9 @@ def run(ctx):
     c10.check_dispatcher(ctx)       # fixed points are selected by the neighbour search (structural table only; C10)
     c10.check_scans(ctx, fill_true_only=True)
     check_dtype(ctx)
+    from . import c02
+    from .c08 import model as _wm
+    c02.check_wiring(ctx, _wm(ctx), recreate=False)      # the reference handed to the matcher by the Weaver is the tracked reference series
     ctx.trust('field axioms over the reals; Sum is linear; floating-point rounding not modelled',
               'installed numpy/scipy namespaces and signatures (inspect.signature)')
     ctx.assume('strictly increasing x; selected fixed points are distinct and leave an interior sample (property precondition)',
